@@ -24,25 +24,44 @@ struct Inner {
     free_run: bool,
 }
 
+struct Core {
+    m: Mutex<Inner>,
+    /// the controller waits here
+    ctl: Condvar,
+    /// participant i waits on cvs[i] (targeted wake-ups: no thundering herd)
+    cvs: Vec<Condvar>,
+}
+
 #[derive(Clone)]
 pub struct Sched {
-    inner: Arc<(Mutex<Inner>, Condvar)>,
+    inner: Arc<Core>,
 }
 
 impl Sched {
     pub fn new(participants: usize) -> Sched {
         Sched {
-            inner: Arc::new((
-                Mutex::new(Inner { status: vec![Status::Absent; participants], token: None, free_run: false }),
-                Condvar::new(),
-            )),
+            inner: Arc::new(Core {
+                m: Mutex::new(Inner { status: vec![Status::Absent; participants], token: None, free_run: false }),
+                ctl: Condvar::new(),
+                cvs: (0..participants).map(|_| Condvar::new()).collect(),
+            }),
         }
+    }
+
+    /// Back to the initial situation (between two executions of the same team of threads).
+    pub fn reset_all(&self) {
+        let mut g = self.inner.m.lock().unwrap();
+        for s in g.status.iter_mut() {
+            *s = Status::Absent;
+        }
+        g.token = None;
+        g.free_run = false;
     }
 
     /// Participant side: arrive at a yield point and wait for the token.
     pub fn yield_point(&self, id: usize, label: &'static str, value: u64) {
-        let (m, cv) = &*self.inner;
-        let mut g = m.lock().unwrap();
+        let c = &*self.inner;
+        let mut g = c.m.lock().unwrap();
         if g.free_run {
             return;
         }
@@ -50,9 +69,9 @@ impl Sched {
         if g.token == Some(id) {
             g.token = None;
         }
-        cv.notify_all();
+        c.ctl.notify_one();
         while g.token != Some(id) && !g.free_run {
-            g = cv.wait(g).unwrap();
+            g = c.cvs[id].wait(g).unwrap();
         }
         if !g.free_run {
             g.status[id] = Status::Running;
@@ -61,21 +80,22 @@ impl Sched {
 
     /// Participant side: this participant will not yield any more.
     pub fn finish(&self, id: usize) {
-        let (m, cv) = &*self.inner;
-        let mut g = m.lock().unwrap();
+        let c = &*self.inner;
+        let mut g = c.m.lock().unwrap();
         g.status[id] = Status::Done;
         if g.token == Some(id) {
             g.token = None;
         }
-        cv.notify_all();
+        c.ctl.notify_one();
     }
 
     /// Controller side: wait until nobody runs and at least `expected` participants have
     /// arrived (blocked or done). Returns the statuses, or None on timeout (a participant
     /// runs without ever yielding: livelock / lost participant).
     pub fn quiesce(&self, expected: usize, timeout: Duration) -> Option<Vec<Status>> {
-        let (m, cv) = &*self.inner;
-        let mut g = m.lock().unwrap();
+        let c = &*self.inner;
+        let cv = &c.ctl;
+        let mut g = c.m.lock().unwrap();
         let deadline = std::time::Instant::now() + timeout;
         loop {
             let arrived = g.status.iter().filter(|s| matches!(s, Status::Blocked(..) | Status::Done)).count();
@@ -94,31 +114,33 @@ impl Sched {
 
     /// Controller side: let participant `id` run until its next yield point.
     pub fn release(&self, id: usize) {
-        let (m, cv) = &*self.inner;
-        let mut g = m.lock().unwrap();
+        let c = &*self.inner;
+        let mut g = c.m.lock().unwrap();
         debug_assert!(matches!(g.status[id], Status::Blocked(..)));
         g.status[id] = Status::Running;
         g.token = Some(id);
-        cv.notify_all();
+        c.cvs[id].notify_one();
     }
 
     /// Controller side: mark a participant as absent again (it will register anew).
     pub fn reset(&self, id: usize) {
-        let (m, _) = &*self.inner;
-        m.lock().unwrap().status[id] = Status::Absent;
+        self.inner.m.lock().unwrap().status[id] = Status::Absent;
     }
 
     /// Lets every participant run to completion without further control.
     pub fn free_run(&self) {
-        let (m, cv) = &*self.inner;
-        let mut g = m.lock().unwrap();
+        let c = &*self.inner;
+        let mut g = c.m.lock().unwrap();
         g.free_run = true;
         g.token = None;
-        cv.notify_all();
+        for cv in &c.cvs {
+            cv.notify_all();
+        }
+        c.ctl.notify_all();
     }
 
     pub fn statuses(&self) -> Vec<Status> {
-        self.inner.0.lock().unwrap().status.clone()
+        self.inner.m.lock().unwrap().status.clone()
     }
 }
 
